@@ -707,3 +707,12 @@ where
     stats.extra.insert(format!("{}_sample", label), serde_json::json!(fam.iter().take(4).map(|x| x.0.clone()).collect::<Vec<_>>()));
     fails
 }
+
+/// Draws `n` values from a strategy with a fixed seed (no shrinking): used by `extra` families whose
+/// members are generated (large histories, large files) rather than listed.
+pub fn sample_strategy<T: std::fmt::Debug>(strategy: &BoxedStrategy<T>, seed: u64, n: usize) -> Vec<T> {
+    use proptest::strategy::{Strategy, ValueTree};
+    let cfg = Config { rng_seed: RngSeed::Fixed(seed), failure_persistence: None, ..Config::default() };
+    let mut runner = TestRunner::new(cfg);
+    (0..n).filter_map(|_| strategy.new_tree(&mut runner).ok().map(|t| t.current())).collect()
+}
